@@ -242,6 +242,8 @@ func findBit(bytes []byte, startIndex, endIndex, width int, searchBit, noEnd boo
 		// an end before the beginning is the beginning, as for start
 		endBit = 0
 	}
+	// the end index names a whole unit: its last bit is the last one searched
+	endBit += width - 1
 	if endBit < startBit {
 		return -1
 	} else if endBit > end {
@@ -307,6 +309,12 @@ func findBit(bytes []byte, startIndex, endIndex, width int, searchBit, noEnd boo
 	// search the last partial byte
 	if index == endByte {
 		b = bytes[index]
+		// bits behind the end of the range take no part
+		mask := lastBit - 1
+		b &= ^mask
+		if !searchBit {
+			b |= mask
+		}
 		subOffset := findBitInByte(b, searchBit, 0x80, lastBit)
 		if subOffset >= 0 {
 			return startBit + subOffset + ((index - startByte) * 8)
